@@ -16,11 +16,11 @@ A = 'AREA(0, 0, 0, 0, 2)'
 B = 'AREA(0, 1, 0, 1, 2)'
 Cc = 'AREA(0, 2, 0, 2, 2)'
 TABLE = [
-    ('SUMIFS.binding', '=SUMIFS(A1:A3,B1:B3,">1",C1:C3,"<5")', f'self._sumifs({A}, {B}, ANY, {Cc}, ANY)',
+    ('SUMIFS.binding', '=SUMIFS(A1:A3,B1:B3,">1",C1:C3,"<5")', f'self._sumifs({A}, *[*({B}, ANY), *({Cc}, ANY)])',
      'target first, then (range, criterion) pairs in order'),
-    ('COUNTIFS.binding', '=COUNTIFS(A1:A3,">1",B1:B3,"<5")', f'self._countifs({A}, ANY, *[{B}, ANY])',
+    ('COUNTIFS.binding', '=COUNTIFS(A1:A3,">1",B1:B3,"<5")', f'self._countifs({A}, ANY, *[*({B}, ANY)])',
      'first pair is the counted range and its condition, further pairs follow in order'),
-    ('AVERAGEIFS.binding', '=AVERAGEIFS(A1:A3,B1:B3,">1")', f'self._averageifs({A}, {B}, ANY)', ''),
+    ('AVERAGEIFS.binding', '=AVERAGEIFS(A1:A3,B1:B3,">1")', f'self._averageifs({A}, *[*({B}, ANY)])', ''),
     ('SUMIF.binding', '=SUMIF(A1:A3,">1",B1:B3)', f'self._sum_if({A}, ANY, {B})', 'criteria range, criterion, target range'),
     ('SUMIF.same_range', '=SUMIF(A1:A3,">1")', f'self._sum_if({A}, ANY, {A})', 'omitted target is the criteria range'),
     ('SUMIF.target_geometry', '=SUMIF(A1:A3,">1",B1)', f'self._sum_if({A}, ANY, {B})',
